@@ -132,8 +132,9 @@ Wrapped(S) == S \cup { Bind("b", q) : q \in S } \cup { Not(q) : q \in S }
                 \cup { Or2(q, PN("BinaryExpr", <<PAny, PAny, PAny>>)) : q \in S }
                 \cup { Or2(Not(q), PN("Ident", <<PStr("x")>>)) : q \in S }
 
-PatSet  == CallP \cup Wrapped(SomeCallP \cup SymP \cup OtherRoots) \cup Generic
-          \cup { Or2(a, b) : a \in SomeCallP, b \in SomeCallP }
+\* (a bare `nil` cannot be written as a complete pattern: the root has to be a node)
+PatSet  == (CallP \cup Wrapped(SomeCallP \cup SymP \cup OtherRoots) \cup Generic
+            \cup { Or2(a, b) : a \in SomeCallP, b \in SomeCallP }) \ {PNilAtom}
 Pats    == SetToSeq(PatSet)
 Nodes   == SetToSeq(NodeSet)
 
